@@ -85,7 +85,8 @@ def ostep (s : OState) : Obs → OState × List Fail
                (if r.keeps then [] else [("rejected-reported-ok", s!"Broadcast({tx.id}) returned nil although the network rejected it")])
       ({ s with live := if s.live.contains tx.id then s.live else s.live ++ [tx.id] }, f)
     | .err => (s, if s.stopped then [("broadcast-after-stop", s!"Broadcast({tx.id}) after Stop did not report the stop")] else
-                  if r.keeps then [("accepted-reported-error", s!"Broadcast({tx.id}) failed although the network accepted it")] else [])
+                  if r = .mempool then [("mempool-tx-not-rebroadcast", s!"Broadcast({tx.id}) failed although the peers answered that the transaction is already in their mempool: it is dropped and never rebroadcast")]
+                  else if r.keeps then [("accepted-reported-error", s!"Broadcast({tx.id}) failed although the network accepted it")] else [])
     | .stopped => (s, if s.stopped then [] else [("spurious-stopped", s!"Broadcast({tx.id}) reported a stop that never happened")])
   | .confirm id hang =>
     if hang then
